@@ -110,6 +110,7 @@ type c02WatchChain struct {
 	tick      int
 	last      int
 	sigChn    chan interface{}
+	after     string // answers once the scripted sweeps are used up (while the signature is on its way / being submitted)
 	sent      bool
 	submitted []string
 	cancel    context.CancelFunc
@@ -125,7 +126,7 @@ func (c *c02WatchChain) isExecuted(p *transfer.TransferProposal) (bool, error) {
 	c.last = idx
 	if c.tick >= len(c.script) {
 		c.release()
-		return false, nil
+		return idx < len(c.after) && c.after[idx] == 'e', nil
 	}
 	v := c.script[c.tick]
 	if idx >= len(v) {
@@ -195,13 +196,14 @@ type c02ExecChain struct {
 	hashed []string
 	polls  map[uint64]int
 	hashOn bool
+	before map[uint64]bool // executed already when the delivery arrives
 }
 
 func (c *c02ExecChain) isExecuted(p *transfer.TransferProposal) (bool, error) {
 	c.mu.Lock()
 	defer c.mu.Unlock()
 	if !c.hashOn {
-		return false, nil
+		return c.before[p.Data.DepositNonce], nil
 	}
 	c.polls[p.Data.DepositNonce]++
 	return true, nil
@@ -269,7 +271,9 @@ func (c *c02CallClient) CallContract(ctx context.Context, args map[string]interf
 }
 
 func init() {
-	// watchsig <evm|sub> <n> <sweeps '/'-separated, each a word of length n over p|e|x, or -> <gas>
+	// watchsig <evm|sub> <n> <sweeps '/'-separated, each a word of length n over p|e|x, or -> <gas> <after>
+	//   after: a word over p|e (not all e) answered to every lookup once the scripted sweeps are used up, i.e. while the
+	//   signature is on its way and at submission time
 	//   => closed|caller=<nonces>                 the loop ended as "already executed" before any signature
 	//      sub:<nonces>/<gas>/<sig len>|caller=…  what ExecuteProposals received, and the caller's slice afterwards
 	ops["C02.watchsig"] = func(a []string) string {
@@ -278,6 +282,9 @@ func init() {
 		defer cancel()
 		sigChn := make(chan interface{})
 		ch := &c02WatchChain{script: items(a[2], "/"), last: -1, sigChn: sigChn, cancel: cancel}
+		if len(a) > 4 && a[4] != "-" {
+			ch.after = a[4]
+		}
 		ps := c02Members(n)
 		h, cm := c02NewHost("self"), &c02MuteComm{}
 		var err error
@@ -306,7 +313,8 @@ func init() {
 		return "closed" + caller
 	}
 
-	// execwatch <evm|sub> <cap> <transfer gas> <per-proposal gas metadata g0,g1,… (n = none)>
+	// execwatch <evm|sub> <cap> <transfer gas> <per-proposal gas metadata g0,g1,… (n = none; suffix e = already executed when
+	//   the delivery arrives, e.g. n,40e,n)>
 	//   => H=<hashed batches, sorted, ';'>|polls=<nonce:count,…>|ret=<nil|err>
 	ops["C02.execwatch"] = func(a []string) string {
 		store := keyshare.NewECDSAKeyshareStore(repoRoot() + "/tss/test/keyshares/0.keyshare")
@@ -318,7 +326,12 @@ func init() {
 		co := tss.NewCoordinator(h, cm, &elector.CoordinatorElectorFactory{}) // only the static elector is reached
 		co.TssTimeout, co.CoordinatorTimeout, co.InitiatePeriod = time.Hour, time.Hour, time.Hour
 		props := []*proposal.Proposal{}
+		ch := &c02ExecChain{polls: map[uint64]int{}, before: map[uint64]bool{}}
 		for i, gs := range items(a[3], ",") {
+			if strings.HasSuffix(gs, "e") {
+				gs = strings.TrimSuffix(gs, "e")
+				ch.before[uint64(i)] = true
+			}
 			md := map[string]interface{}{}
 			if gs != "n" {
 				md["gasLimit"] = u64(gs)
@@ -327,7 +340,6 @@ func init() {
 				DepositNonce: uint64(i), Metadata: md, Data: []byte{byte(i)},
 			}, "m", transfer.TransferProposalType))
 		}
-		ch := &c02ExecChain{polls: map[uint64]int{}}
 		done := make(chan error, 1)
 		if a[0] == "evm" {
 			old := evmexec.VerifC02SetCheckPeriod(time.Millisecond)
@@ -452,6 +464,19 @@ func init() {
 	}
 }
 
+// c02After: statuses at submission time — some members executed meanwhile, never all (the loop must not be able to close)
+func c02After(g *G, n int) string {
+	if n < 2 || g.Intn(2) == 0 {
+		return "-"
+	}
+	w := make([]byte, n)
+	for i := range w {
+		w[i] = "pe"[g.Intn(2)]
+	}
+	w[g.Intn(n)] = 'p'
+	return string(w)
+}
+
 func genC02Seq(g *G) {
 	// watchsig: every script of 0..2 sweeps for batches of 1..3 members (exhaustive), then random longer ones
 	var words func(n int) []string
@@ -469,13 +494,13 @@ func genC02Seq(g *G) {
 	}
 	for _, kind := range []string{"evm", "sub"} {
 		for n := 1; n <= 3; n++ {
-			g.Emit("watchsig", kind, itoa(n), "-", "120")
+			g.Emit("watchsig", kind, itoa(n), "-", "120", "-")
 			ws := words(n)
 			for _, w1 := range ws {
-				g.Emit("watchsig", kind, itoa(n), w1, "120")
+				g.Emit("watchsig", kind, itoa(n), w1, "120", c02After(g, n))
 				if n <= 2 || g.Thorough() {
 					for _, w2 := range ws {
-						g.Emit("watchsig", kind, itoa(n), w1+"/"+w2, "120")
+						g.Emit("watchsig", kind, itoa(n), w1+"/"+w2, "120", c02After(g, n))
 					}
 				}
 			}
@@ -491,7 +516,7 @@ func genC02Seq(g *G) {
 				}
 				sw = append(sw, string(w))
 			}
-			g.Emit("watchsig", kind, itoa(n), strings.Join(sw, "/"), utoa([]uint64{0, 60, 1 << 40, 1<<64 - 1}[g.Intn(4)]))
+			g.Emit("watchsig", kind, itoa(n), strings.Join(sw, "/"), utoa([]uint64{0, 60, 1 << 40, 1<<64 - 1}[g.Intn(4)]), c02After(g, n))
 		}
 	}
 	// execwatch: one delivery split into 1..n batches (cap 100, transfer gas 60 → allowances 60/100/101/160 around the cap)
@@ -503,11 +528,29 @@ func genC02Seq(g *G) {
 				g.Emit("execwatch", kind, "100", "60", x+","+y)
 			}
 		}
+		// partially executed deliveries: every executed/pending pattern over 1..3 proposals
+		for n := 1; n <= 3; n++ {
+			for m := 0; m < 1<<uint(n); m++ {
+				xs := []string{}
+				for j := 0; j < n; j++ {
+					x := []string{"n", "41"}[(m+j)%2]
+					if m>>uint(j)&1 == 1 {
+						x += "e"
+					}
+					xs = append(xs, x)
+				}
+				g.Emit("execwatch", kind, "100", "60", strings.Join(xs, ","))
+			}
+		}
 		for i := 0; i < g.Count(40, 1500); i++ {
 			n := 3 + g.Intn(4)
 			xs := []string{}
 			for j := 0; j < n; j++ {
-				xs = append(xs, g.Pick(gasAlpha))
+				x := g.Pick(gasAlpha)
+				if g.Intn(4) == 0 {
+					x += "e"
+				}
+				xs = append(xs, x)
 			}
 			c := []string{"100", "100", "1000", "130", "18446744073709551615"}[g.Intn(5)]
 			g.Emit("execwatch", kind, c, "60", strings.Join(xs, ","))
@@ -538,4 +581,5 @@ func genC02Seq(g *G) {
 		}
 		g.Emit("bseq", kind, chain, hx(g.Bytes(20)), hx(g.Bytes(20)), strings.Join(st, ","), c02RandProps(g, 3)+"/"+c02RandProps(g, 4)+"/"+c02RandProps(g, 2))
 	}
+	genC02Sign(g)
 }
